@@ -238,6 +238,12 @@ func ParseTokenParam(buf []byte, offs int, param *PTokParam,
 					// do nothing, allow empty params, just skip them
 					break
 				}
+				if param.state == paramFNxt && c == term && term != 0 {
+					// empty param right before the terminator: the
+					// list ends here (the previous param is complete)
+					param.state = paramFIN
+					return i, ErrHdrOk
+				}
 				if !tokAllowedChar(c, flags) {
 					param.state = paramERR
 					return i, ErrHdrBadChar
